@@ -114,6 +114,36 @@ let mk_tmpl maxin maxcache (table : tmsg list) =
                                    (if int_of_n cap <= int_of_n f_scratch then "S" else "H") in
           ((ret, String.concat "" (List.map (fun m -> show_msg [m.t_flat]) outs), obs ^ "/" ^ b01 r'.fr_err ^ "/" ^ cache_obs r'.fr_cr), pipe')) }
 
+(* WebSocket pair after the handshake, MessageIOGateway slaves (DEFAULT encoding): the slave gateways are the
+   binary-gateway model itself (sender: d_flat, receiver: the byte-level machine d_feed) *)
+let mk_ws client_sends maxin =
+  let sflat m = snd (d_flat () m) in
+  (* "while(_slaveGateway()->DoInput(receiver).GetByteCount() > 0) {}" over the payload: the slave's own DoInput loop
+     (the chunk-level model; the theorems use its byte-level equivalent d_feed, FrameProofs.f_do_input_spec) *)
+  let big = n_of_int 4294967295 in
+  let sfeed sl payload =
+    let rec go sl pipe outs =
+      let ((sl', o), pipe') = d_do_input maxin sl big [big; big; big; big; big; big] pipe in
+      if List.length pipe' = List.length pipe then (sl', outs @ o) else go sl' pipe' (outs @ o) in
+    go sl payload [] in
+  let s = ref (ws_init []) and r = ref (wr_init (fr_init ())) in
+  { q = (fun a -> s := ws_queue !s (bytes_of_hex a));
+    o = (fun maxb scr ->
+          let (s', w) = ws_do_output sflat client_sends !s maxb scr in
+          s := s';
+          (w, Printf.sprintf "%d/%d/%d" (List.length s'.ws_q) (List.length s'.ws_buf) (int_of_n s'.ws_off)));
+    i = (fun maxb scr pipe ->
+          let ((r', outs), pipe') = wr_do_input sfeed (not client_sends) !r maxb scr pipe in
+          let consumed = List.length pipe - List.length pipe' in
+          (* the WebSocket gateway returns the error itself from the point where it is detected (lines 265-404) *)
+          let ret = if r'.wr_err then "E" else string_of_int consumed in
+          r := r';
+          let obs = Printf.sprintf "%d/%d/%s/%d/%d/%s/%s" (List.length r'.wr_hdr) (int_of_n r'.wr_hsize)
+                      (match r'.wr_pay with None -> "-" | Some (sz, _) -> string_of_int (int_of_n sz))
+                      (match r'.wr_pay with None -> 0 | Some (_, got) -> List.length got)
+                      (int_of_n r'.wr_op) (b01 r'.wr_closed) (b01 r'.wr_err) in
+          ((ret, String.concat "" (List.map (fun m -> show_msg [m]) outs), obs), pipe')) }
+
 let mk_text eol =
   let s = ref ts_init and r = ref tr_init in
   { q = (fun a -> s := ts_queue !s (items a));
@@ -164,11 +194,13 @@ let () =
       let body = String.sub line (p+1) (String.length line - p - 1) in
       let nth l i d = match List.nth_opt l i with Some x -> x | None -> d in
       let h0 = List.hd head in
-      if h0.[0] = 'K' || h0.[0] = 'X' || h0.[0] = 'W' || h0 = "MC" || h0 = "CM" || h0 = "UC" || h0 = "CU"
+      if h0.[0] = 'K' || h0.[0] = 'X' || h0 = "WC" || h0 = "MC" || h0 = "CM" || h0 = "UC" || h0 = "CU"
          || (h0 = "P" && List.length head < 5) then
         Printf.printf "%d oracle-only\n" k   (* not modelled: the harness evaluates the end-to-end oracle only *)
       else
       let m = match List.hd head with
+        | "WS" -> mk_ws false (n_of_int 4294967295)
+        | "WR" -> mk_ws true (n_of_int 4294967295)
         | "P" ->
             (* P:0:<maxin>:<maxcache>:<table>, table entries "triv/what/tid/tsize/tflathex/shape" in q order; the flat
                bytes of entry i are those of the i-th q op *)
